@@ -520,6 +520,22 @@ func genSet(t *rapid.T) (*ymodel.Set, []PathQ) {
 	set, _ := schema.Generate(t, o)
 	schema.AddAugments(t, set, 0, 2)
 	schema.AddIdentities(t, set, 5)
+	if rapid.Bool().Draw(t, "one-sided-operation") {
+		// an rpc of which only the input, or only the output, is written: looking a node up below that half is a
+		// read and leaves the other half alone
+		var mods []*ymodel.Module
+		for _, m := range set.Modules {
+			if !m.IsSub {
+				mods = append(mods, m)
+			}
+		}
+		m := mods[rapid.IntRange(0, len(mods)-1).Draw(t, "one-sided-in")]
+		side := rapid.SampledFrom([]string{ymodel.KInput, ymodel.KOutput}).Draw(t, "one-sided-half")
+		m.Nodes = append(m.Nodes, &ymodel.Node{Kind: ymodel.KRPC, Name: "op-one-sided", Body: ymodel.Body{Nodes: []*ymodel.Node{{Kind: side, Body: ymodel.Body{Nodes: []*ymodel.Node{
+			{Kind: ymodel.KLeaf, Name: "arg", Type: &ymodel.TypeRef{Name: "string"}},
+			{Kind: ymodel.KContainer, Name: "more", Body: ymodel.Body{Nodes: []*ymodel.Node{{Kind: ymodel.KLeaf, Name: "arg2", Type: &ymodel.TypeRef{Name: "int32"}}}}},
+		}}}}}})
+	}
 	r := yref.New(set)
 	trees := r.Expand()
 	var paths []PathQ
